@@ -647,8 +647,11 @@ NOT_TABULATED = {
 }
 
 
-def tokenizer_tables(ast, which):
-    """all tables of one tokenizer: step, eof_step (projected), helpers and char-ref machine (normal forms)"""
+def tokenizer_tables(ast, which, known=None):
+    """all tables of one tokenizer: step, eof_step (projected), helpers and char-ref machine (normal forms).
+    known: names of the helper / char-ref methods of the reviewed reference.  A *private* method that is not among
+    them (a helper extracted by a refactoring) is inlined at its call sites instead of being tabulated, so that the
+    callers' normal forms are compared with the reference as if the code had not been moved."""
     if which == "html":
         crate, ty, prims, accessors = "html5ever", "Tokenizer", HTML_PRIMS, HTML_ACCESSORS
         guards = HTML_GUARDS | COMMON_GUARDS
@@ -656,8 +659,16 @@ def tokenizer_tables(ast, which):
         crate, ty, prims, accessors = "xml5ever", "XmlTokenizer", None, {"doctype_id"}
         guards = COMMON_GUARDS | {"self.sink.query_state_change"}
     M = Machine(ast, crate, "tokenizer", ty, "tokenizer::states", {})
+    from .flat import scalar_consts
+    CONSTS = scalar_consts(ast.crates[crate])
+    from . import render as _render
+    _render.CONSTS = CONSTS
     if prims is None:
         prims = {n for n in M.methods if n not in STEP_LIKE} - accessors
+    new_private = set()
+    if known is not None:
+        new_private = {n for n, it in M.methods.items() if n not in known and n not in STEP_LIKE and n not in NOT_TABULATED and (it.get("vis") or "") == "" and not it.get("trait")}
+        prims = set(prims) - new_private
     states = enum_values(M.enums, "XmlState" if "XmlState" in M.enums else "State")
     helpers = {}
     for hn in ("lower_ascii_letter",):
@@ -673,21 +684,21 @@ def tokenizer_tables(ast, which):
         if name not in prims and name not in STEP_LIKE and name not in acq_names and name not in NOT_TABULATED and name not in accessors \
                 and name not in ("run", "feed", "end", "process_token", "process_token_and_continue"):
             inline.setdefault(name, it)
-    out = {"machine": M, "states": [showv(s) for s in states], "classes": classes, "lits": sorted(lits), "raw": {}, "errors": {}}
+    out = {"machine": M, "states": [showv(s) for s in states], "classes": classes, "lits": sorted(lits), "raw": {}, "errors": {}, "inlined_new": sorted(new_private)}
     for fn in STEP_LIKE:
-        cfg = Config(acquire=make_acquire(samples), primitives=prims, inline=dict(inline), guards=guards, samples=samples, accessors=accessors)
+        cfg = Config(acquire=make_acquire(samples), primitives=prims, inline=dict(inline), guards=guards, samples=samples, accessors=accessors, consts=CONSTS)
         raw = tabulate(M, fn, cfg, classes, states)
         out["raw"][fn] = raw
         out[fn] = {st: (project(c) if c is not None else None) for st, c in raw.items()}
     # helper methods: each in its own normal form, all other methods being opaque calls
     hp = {}
     for name, it in sorted(M.methods.items()):
-        if name in STEP_LIKE or name in NOT_TABULATED:
+        if name in STEP_LIKE or name in NOT_TABULATED or name in new_private:
             continue
         try:
-            c2, _ = char_cuts([it["body"]])
+            c2, _ = char_cuts([it["body"]] + [M.methods[n]["body"] for n in new_private])
             cl2 = classes_from_cuts(c2)
-            cfg = Config(acquire={}, primitives=set(M.methods) - {name}, inline={}, guards=guards, samples=[], accessors=accessors)
+            cfg = Config(acquire={}, primitives=set(M.methods) - {name} - new_private, inline={n: M.methods[n] for n in new_private}, guards=guards, samples=[], accessors=accessors, consts=CONSTS)
             hp[name] = project_fn(tabulate_fn(it, cfg, cl2))
         except Unsupported as e:
             out["errors"][name] = str(e)
@@ -698,14 +709,20 @@ def tokenizer_tables(ast, which):
     crm = {it["name"]: it for it in items if it["k"] == "Fn" and it.get("self_ty") and it["self_ty"].replace(" ", "").split("<")[0] == "CharRefTokenizer"
            and it.get("body") is not None}
     cr = {}
+    new_cr = set()
+    if known is not None:
+        new_cr = {n for n, it in crm.items() if n not in known and (it.get("vis") or "") == "" and not it.get("trait")}
+        out["inlined_new"] = sorted(set(out["inlined_new"]) | {"char_ref::" + n for n in new_cr})
     for name, it in sorted(crm.items()):
+        if name in new_cr:
+            continue
         try:
-            c2, _ = char_cuts([it["body"]])
+            c2, _ = char_cuts([it["body"]] + [crm[n]["body"] for n in new_cr])
             cl2 = classes_from_cuts(c2)
             smp = [x for c in cl2 for x in class_samples(c)]
             acq = make_acquire(smp)
-            cfg = Config(acquire={"peek": acq["peek"], "get_char": acq["get_char"]}, primitives=set(crm) - {name}, inline={},
-                         guards=guards, samples=smp, accessors={"name_buf", "name_buf_mut"})
+            cfg = Config(acquire={"peek": acq["peek"], "get_char": acq["get_char"]}, primitives=set(crm) - {name} - new_cr, inline={n: crm[n] for n in new_cr},
+                         guards=guards, samples=smp, accessors={"name_buf", "name_buf_mut"}, consts=CONSTS)
             cfg.int_params = {"base": [10, 16]}
             cr[name] = project_fn(tabulate_fn(it, cfg, cl2))
         except Unsupported as e:
@@ -877,11 +894,102 @@ def pats_disjoint(a, b):
     return False
 
 
+_flat_cache = {}
+
+
+def _flat_alts(text):
+    """pattern text -> list of alternative-free patterns (alternatives distributed outwards); None when too many"""
+    if text in _flat_cache:
+        return _flat_cache[text]
+
+    def go(p):
+        if p[0] == "alt":
+            out = []
+            for x in p[1]:
+                out += go(x)
+            return out
+        if p[0] == "ctor":
+            combos = [[]]
+            for a in p[2]:
+                fa = go(a)
+                combos = [c + [x] for c in combos for x in fa]
+                if len(combos) > 400:
+                    raise OverflowError
+            return [("ctor", p[1], c) for c in combos]
+        if p[0] == "struct":
+            combos = [{}]
+            for k, v in p[2].items():
+                fv = go(v)
+                combos = [dict(c, **{k: x}) for c in combos for x in fv]
+                if len(combos) > 400:
+                    raise OverflowError
+            return [("struct", p[1], c) for c in combos]
+        return [p]
+
+    try:
+        r = go(_parse_pat(text))
+    except OverflowError:
+        r = None
+    _flat_cache[text] = r
+    return r
+
+
+def pat_subsumes(big, small):
+    """every value matched by `small` is matched by `big` (both alternative-free); conservative: False when unsure"""
+    if big[0] == "wild":
+        return True
+    if big[0] == "lit":
+        return small[0] == "lit" and big[1] == small[1] and ".." not in big[1]
+    if big[0] == "ctor":
+        return small[0] == "ctor" and big[1] == small[1] and len(big[2]) == len(small[2]) and all(pat_subsumes(x, y) for x, y in zip(big[2], small[2]))
+    if big[0] == "struct":
+        return small[0] == "struct" and big[1] == small[1] and all(k in small[2] and pat_subsumes(v, small[2][k]) for k, v in big[2].items())
+    return False
+
+
+def _covered(g):
+    """some pattern test that holds is covered by the pattern tests (same scrutinee) that do not hold: infeasible"""
+    pos, neg = [], {}
+    for k, v in g.items():
+        if " matches " not in k:
+            continue
+        inst = "1"
+        lbl = k
+        if "#" in lbl and lbl.rsplit("#", 1)[1].isdigit():
+            lbl, inst = lbl.rsplit("#", 1)
+        sc, pt = lbl.split(" matches ", 1)
+        if ".get()" in sc or ".take()" in sc or "borrow" in sc:
+            continue  # a cell read: two tests may see different values
+        if v:
+            pos.append((sc, inst, pt))
+        else:
+            neg.setdefault((sc, inst), []).append(pt)
+    for sc, inst, pt in pos:
+        ns = neg.get((sc, inst))
+        if not ns:
+            continue
+        fp = _flat_alts(pt)
+        if not fp:
+            continue
+        fn = []
+        for x in ns:
+            fx = _flat_alts(x)
+            if fx:
+                fn += fx
+        if fn and all(any(pat_subsumes(b, a) for b in fn) for a in fp):
+            return True
+    return False
+
+
 def _guard_conflict(g1, g2):
     """two guard valuations cannot hold together"""
     for k, v in g1.items():
         if k in g2 and g2[k] != v:
             return True
+    if g1 is not g2 and _covered(dict(g1, **g2)):
+        return True
+    if g1 is g2 and _covered(g1):
+        return True
     # mutually exclusive pattern tests on the same scrutinee
     pos1 = [k for k, v in g1.items() if v and " matches " in k]
     pos2 = [k for k, v in g2.items() if v and " matches " in k]
